@@ -545,6 +545,7 @@ static void start(int type)
 	if (rc != 0) { fprintf(stderr, "h_ipc_life: qb_ipcs_run: %d\n", rc); exit(2); }
 	vt_ev("Svc"); vt_i(type); vt_res(); vt_end();
 }
+static void sweep_shm(void);
 /* end of a history: every client goes away, the loop runs until nothing is left to do, the application drops what it
  * still holds and destroys the service; all of it through the same logged operations */
 static void finish(void)
@@ -568,15 +569,40 @@ static void finish(void)
 	for (int i = 0; i < npt; i++) if (pt[i].live) left++;
 	vt_ev("Final"); vt_res(); vt_i(left); vt_i(njobs); vt_end();
 	svc = NULL;
+	sweep_shm();
 }
 
+static int shm_private;
+/* fallback when no private /dev/shm could be set up: remove what this server (pid) left there */
+static void sweep_shm(void)
+{
+	if (shm_private) return;
+	char pre[64], path[512];
+	snprintf(pre, sizeof(pre), "qb-%d-", (int)getpid());
+	DIR *d = opendir("/dev/shm");
+	if (!d) return;
+	struct dirent *de;
+	while ((de = readdir(d))) {
+		if (strncmp(de->d_name, pre, strlen(pre))) continue;
+		snprintf(path, sizeof(path), "/dev/shm/%s", de->d_name);
+		DIR *e = opendir(path);
+		if (e) {
+			struct dirent *fe;
+			char fp[1024];
+			while ((fe = readdir(e))) if (fe->d_name[0] != '.') { snprintf(fp, sizeof(fp), "%s/%s", path, fe->d_name); unlink(fp); }
+			closedir(e);
+			rmdir(path);
+		} else unlink(path);
+	}
+	closedir(d);
+}
 static void private_shm(void)
 {
 	/* connection files live in /dev/shm: give this process (and its children) a private, empty one, so that nothing
 	 * is left behind whatever happens (works as root; otherwise files are removed by name at exit) */
 	if (unshare(CLONE_NEWNS) == 0) {
 		mount("none", "/", NULL, MS_REC | MS_PRIVATE, NULL);
-		if (mount("tmpfs", "/dev/shm", "tmpfs", 0, "size=2g") == 0) return;
+		if (mount("tmpfs", "/dev/shm", "tmpfs", 0, "size=2g") == 0) { shm_private = 1; return; }
 	}
 	fprintf(stderr, "h_ipc_life: private /dev/shm not available\n");
 }
